@@ -1,4 +1,4 @@
-import PprofVerif.Lemmas.GraphIndex
+import PprofVerif.Lemmas.GraphValid
 /-!
 # C04 — report flat, cum and edge values equal their definition over samples
 
@@ -76,6 +76,19 @@ theorem tree_edge_eq_spec (ss : List (GSample κ)) (a b : List κ) :
 theorem sampleIndexByName_in_range (p : Profile) (si : Str) (i : Nat)
     (h : sampleIndexByName p si = some i) : i < p.sampleType.length :=
   sampleIndexByName_lt p si i h
+
+/-- on a valid profile (CheckValid and references inside the tables) and an in-range value column the
+abstraction of the profile to samples — entry identity via `nodeInfo`, stack order, value and
+divisor — is defined, at every granularity (`aggregate` first or not), so the theorems above speak
+about every valid profile; no dangling id and no short value list is ever met. -/
+theorem samplesOf_defined_of_valid (clean : Str → Str) (p : Profile) (o : GOpts) (vi : Nat) (mean : Bool)
+    (hv : p.Valid) (hvi : vi < p.sampleType.length) :
+    ∃ ss, samplesOf clean p o vi mean = some ss ∧
+      (∀ n, (newGraph allKept ss).cum n = cumSpec ss n ∧ (newGraph allKept ss).flat n = flatSpec ss n) ∧
+      (∀ a b, (newGraph allKept ss).weight a b = edgeSpec ss a b) ∧ computeTotalWD ss = totalSpec ss := by
+  obtain ⟨ss, h⟩ := samplesOf_defined clean p o vi mean hv hvi
+  exact ⟨ss, h, fun n => ⟨graph_cum_eq_spec ss n, graph_flat_eq_spec ss n⟩,
+    fun a b => graph_edge_eq_spec ss a b, total_eq_spec ss⟩
 
 -- non-vacuity / sanity: direct recursion a→a→b, value 5: cum a = 5 (once), flat b = 5, edge a→b = 5, no self edge
 example : let ss : List (GSample Nat) := [{ frames := [1, 1, 2], w := 5, d := 1 }, { frames := [2, 1], w := -3, d := 1 }]
